@@ -20,7 +20,7 @@ correct implementation cannot trip it, while a wrong gate (1e-2 instead of 1e-4)
 import struct, math
 from fractions import Fraction as Fr
 
-RULE = ("requests: polynomials built from chosen roots (degree 0..7; roots at 0, on either bracket end, double roots, "
+RULE = ("(hardening: the whole problem rescaled to every decade 1e-20..1e20 and binade 2^-70..2^60 with brackets of relative width 1e-15..1e6, one root of size 1e-20..1 among ordinary roots for the completeness clause, degrees 8..24, initial guesses one ulp outside the bracket, signed-zero brackets, roots on both ends and the midpoint, caps next to 2^16 / 2^31 / 2^32 / 2^63 / usize::MAX, other variable names) requests: polynomials built from chosen roots (degree 0..7; roots at 0, on either bracket end, double roots, "
         "complex pairs), arbitrary polynomials of both kinds, brackets ordered/reversed/degenerate, init on the ends, "
         "on the midpoint, inside, outside, tolerances 1e-12..1e3 and <= 0, caps 0..5000, both modes; non-trivial = the "
         "model returns a value (`ok`), so containment and the residual gate are exercised; distinct = distinct request lines")
@@ -34,6 +34,14 @@ def fbits(tok):
 
 def exact(x):
     return Fr(x)  # exact value of a finite double
+
+
+def fl(q):
+    """float for messages: a rational beyond the binary64 range prints as +-inf instead of raising"""
+    try:
+        return float(q)
+    except OverflowError:
+        return math.inf if q > 0 else -math.inf
 
 
 class Req:
@@ -195,7 +203,7 @@ def oracle(req, impl):
             res = abs(ev(r.g, xq))
             slack = Fr(1, 10 ** 12) * absum(r.gabs, xq)
             if not res < GATE + slack:
-                return f"returned x = {x!r} has |g(x)| = {float(res):.6g} >= 1e-4"
+                return f"returned x = {x!r} has |g(x)| = {fl(res):.6g} >= 1e-4"
         return None
     # completeness
     if r.g is None or outside:
